@@ -168,3 +168,74 @@ def twin_some_shape_accepted(r: int, d0: int, d1: int, d2: int, d3: int) -> bool
     """
     sh = _shape(r, d0, d1, d2, d3)
     return not (_accepts("Tetrahedron.vertices", sh) and _accepts("Sensor.pixel", sh))
+
+
+# ---------------------------------------------------------------------------- CustomSource.field_func: what the callable returns per field
+import numpy as _np
+
+_KINDS = ("none", "ok", "scalar", "list", "wrong-shape", "wrong-rank")
+
+
+def _ret(kind, obs):
+    if kind == "none":
+        return None
+    if kind == "ok":
+        return _np.zeros((len(obs), 3))
+    if kind == "scalar":
+        return 1.0
+    if kind == "list":
+        return [[0.0, 0.0, 0.0]] * len(obs)
+    if kind == "wrong-shape":
+        return _np.zeros((len(obs), 2))
+    return _np.zeros((len(obs), 3, 1))
+
+
+def _kind(i):
+    for j in range(len(_KINDS)):
+        if i == j:
+            return _KINDS[j]
+    return _KINDS[-1]
+
+
+def h_field_func_returns(kb: int, kh: int, via_setter: bool) -> bool:
+    """
+    pre: 0 <= kb <= 5 and 0 <= kh <= 5
+    post: _
+    """
+    # a field function is accepted iff, for B AND for H, it returns None ("field not available") or an ndarray of the observers' shape;
+    # anything else is rejected at assignment - identically through constructor and setter - and leaves the previous function in place
+    kinds = {"B": _kind(kb), "H": _kind(kh)}
+
+    def f(field, observers):
+        return _ret(kinds[field], observers)
+
+    good = all(k in ("none", "ok") for k in kinds.values())
+    src = magpy.misc.CustomSource()
+    try:
+        if via_setter:
+            src.field_func = f
+        else:
+            src = magpy.misc.CustomSource(field_func=f)
+        accepted = True
+    except MagpylibBadUserInput:
+        accepted = False
+    if accepted != good:
+        return False
+    return (src.field_func is f) if accepted else (src.field_func is None)
+
+
+def twin_field_func_returns(kb: int, kh: int) -> bool:
+    """
+    pre: 0 <= kb <= 5 and 0 <= kh <= 5
+    post: _
+    """
+    kinds = {"B": _kind(kb), "H": _kind(kh)}
+
+    def f(field, observers):
+        return _ret(kinds[field], observers)
+
+    try:
+        magpy.misc.CustomSource(field_func=f)
+    except MagpylibBadUserInput:
+        return True
+    return False  # some combination is accepted
